@@ -65,7 +65,7 @@ example :
     IP_WF { i with payload := [] } 0xC0A81C10 0xEB000001 ∧ Eth_WF e ∧ (r.sec < 2 ^ 32 ∧ r.usec < 2 ^ 32) := by
   simp [IP_WF, Eth_WF, IP.fresh, Eth.fresh, IP_PROTOCOL_UDP, IP_DEFAULT_TTL, ETH_TYPE_IP, ETH_TYPE_VLAN]
 
-/-- the bound 65507 is the largest the formats admit: one more byte and `IP.pack` cannot express the total
+/-- the bound 65507 is the largest the formats allow: one more byte and `IP.pack` cannot express the total
     length (20 + 8 + 65508 = 65536 does not fit 16 bits) — `IP_WF` fails for that payload length -/
 example (i : IP) (src dst : Nat) (ub : Bytes) (h : ub.length = 8 + 65508) : ¬ IP_WF { i with payload := ub } src dst := by
   intro hw; have := hw.2.2.2.2.2.2.2.2.2.2.2; simp only [h] at this; omega
